@@ -826,6 +826,23 @@ func (fc *FnCtx) doReturn(x *ssa.Return) {
 		f := fc.evalBool(cl.E, env)
 		fc.oblige("post", cl.Label, f, x.Pos(), cl)
 	}
+	// a `fresh` tag on a function of the module is an obligation on its body (for externs it is trusted)
+	if fc.con.Fresh && fc.con.Kind == "func" {
+		fc.declare("allocBase", SInt)
+		for _, r := range x.Results {
+			v := fc.val(r)
+			var ref string
+			switch v.K {
+			case KSlice, KPtr:
+				ref = v.C[0]
+			case KIface:
+				ref = v.C[1]
+			default:
+				continue
+			}
+			fc.oblige("post", "fresh", fmt.Sprintf("(or (= %s 0) (>= %s allocBase))", ref, ref), x.Pos(), nil)
+		}
+	}
 	// exit clauses may mention local variables; they are checked at every return where those are defined
 	for i := range fc.con.Exits {
 		cl := &fc.con.Exits[i]
@@ -857,6 +874,12 @@ func (fc *FnCtx) returnEnv(results []ssa.Value) *Env {
 				return v, true
 			}
 			if fc.allowLocals {
+				if g, ok := fc.ghosts[name]; ok {
+					if ab := fc.ghostAt[name]; ab != nil && (ab == fc.curBlock || ab.Dominates(fc.curBlock)) {
+						return g, true
+					}
+					return Val{}, false
+				}
 				return fc.resolveVar(name, fc.curBlock, fc.curIdx, &fc.cur)
 			}
 			return Val{}, false
@@ -898,6 +921,26 @@ func (fc *FnCtx) anchorAsserts(d *ssa.DebugRef) {
 			fc.applyLemma(a.C.E.(*ECall), env)
 			continue
 		}
+		if a.Ghost != "" {
+			v := fc.evalExpr(a.C.E, env)
+			g := fc.freshVal("ghost."+a.Ghost, v.T)
+			g.K = v.K
+			if len(g.C) != len(v.C) {
+				fc.fail("ghost %s: unsupported value shape", a.Ghost)
+			}
+			for k := range v.C {
+				fc.assumeHere(fmt.Sprintf("(= %s %s)", g.C[k], v.C[k]))
+			}
+			if fc.ghosts == nil {
+				fc.ghosts = map[string]Val{}
+			}
+			fc.ghosts[a.Ghost] = g
+			if fc.ghostAt == nil {
+				fc.ghostAt = map[string]*ssa.BasicBlock{}
+			}
+			fc.ghostAt[a.Ghost] = fc.curBlock
+			continue
+		}
 		f := fc.evalBool(a.C.E, env)
 		if a.Assume {
 			fc.assumeHere(f)
@@ -912,6 +955,9 @@ func (fc *FnCtx) anchorAsserts(d *ssa.DebugRef) {
 func (fc *FnCtx) pointEnv(b *ssa.BasicBlock) *Env {
 	return &Env{fc: fc, heap: &fc.cur, old: &fc.entry, oldLookup: fc.paramLookup,
 		lookup: func(name string) (Val, bool) {
+			if g, ok := fc.ghosts[name]; ok {
+				return g, true
+			}
 			return fc.resolveVar(name, b, fc.curIdx, &fc.cur)
 		}}
 }
